@@ -6,7 +6,7 @@
 From Coq Require Import ZArith List Bool Permutation.
 From Coq Require PrimFloat.
 From Centro Require Import Base.Sx Base.PropFloat Model.PropHeap Model.Propagate Spec.PropSpec Spec.PropCheck
-     Proofs.PropPotential Proofs.PropGrid Proofs.PropKey Proofs.PropHeapInv Proofs.PropHeapKey Proofs.PropDijkstra Proofs.PropFuel Proofs.PropLabels Proofs.PropFloatMono Proofs.PropOptimal Proofs.PropOptimalClosed.
+     Proofs.PropPotential Proofs.PropGrid Proofs.PropKey Proofs.PropHeapInv Proofs.PropHeapKey Proofs.PropDijkstra Proofs.PropFuel Proofs.PropLabels Proofs.PropFloatMono Proofs.PropFloatFacts Proofs.PropOptimal Proofs.PropStepCost Proofs.PropOptimalClosed.
 Import ListNotations.
 Open Scope Z_scope.
 
@@ -187,28 +187,63 @@ Theorem C03_fuel_sufficient : forall key image labels mask m n weight,
 Proof. exact fuel_sufficient. Qed.
 Print Assumptions C03_fuel_sufficient.
 
-(* --- optimality of the loop with a strictly order-reflecting key ------------------------------ *)
-(* dijkstra_optimal_full64: for every input (labels >= 0, every step cost a non-negative double or
-   +inf, i.e. no NaN from the image), the Full64-key model's output is the geodesic optimum in the
-   code's own arithmetic: for every non-seed pixel v, (1) its distance is a lower bound of the cost
-   of EVERY mask path from EVERY masked seed (cost folded as the code folds it, step + accumulated,
-   binary64; order = order of bit patterns = numeric order), (2) if it has a distance there is a real
-   path of bit-identical cost from a seed carrying the reported label, (3) otherwise it is -1.
-   Layers (Proofs/PropOptimal.v): popped keys non-decreasing (kstar), finalised pixels frozen,
-   relaxation invariant i_nbr; binary64 facts from FloatAxioms via Flocq (Proofs/PropFloatFacts.v).
-   Example of the hypotheses: Proofs/PropOptimalClosed.v optimal_example. *)
+(* --- optimality of the loop ------------------------------------------------------------------- *)
+(* Vocabulary (Proofs/PropOptimal.v): reachL v x l k = "x is the cost (folded as the code folds it:
+   step + accumulated, binary64) of a k-step 8-connected mask path from a masked seed labelled l to v";
+   okF x = "x is a non-negative double or +inf"; bitsD = IEEE bit pattern (on okF values its integer
+   order is the numeric order: C03_ltb_is_bit_order).  finF = PrimFloat.is_finite.
+   Layers: popped keys non-decreasing (kstar), finalised pixels frozen, pending pixels own a row
+   carrying exactly their current distance (this is where order reflection of the key is used),
+   relaxation invariant i_nbr; loop_opt, relax_opt, init_INV. *)
+
+(* every step cost of a finite image with a finite weight is a non-negative double or +inf, never NaN *)
+Theorem C03_steps_ok_finite : forall image m n weight,
+  Forall (Forall finF) image -> finF weight ->
+  forall u v, inr m n u -> inr m n v -> adj8 u v -> okF (stepF image m n weight u v).
+Proof. exact steps_ok_finite. Qed.
+Print Assumptions C03_steps_ok_finite.
+
+(* comparison of the kernel's floats = integer order of the bit patterns on non-negative doubles *)
+Theorem C03_ltb_is_bit_order : forall x y, okF x -> okF y ->
+  (PrimFloat.ltb x y = true <-> bits_of_float x < bits_of_float y).
+Proof. exact ltb_bits. Qed.
+Print Assumptions C03_ltb_is_bit_order.
+
+(* dijkstra_optimal_full64: for EVERY finite input (labels >= 0) the Full64-key loop is optimal: at every
+   non-seed pixel v the reported distance (1) is a lower bound of the cost of every mask path from every
+   masked seed, (2) if present, is realised bit for bit by a path from a seed carrying the reported
+   label, (3) otherwise is -1. *)
 Theorem C03_dijkstra_optimal_full64 : forall image labels mask m n weight lo d,
-  shape labels m n ->
-  (forall v, inr m n v -> 0 <= labv labels v) ->
-  (forall u v, inr m n u -> inr m n v -> adj8 u v -> okF (stepF image m n weight u v)) ->
+  shape labels m n -> (forall v, inr m n v -> 0 <= labv labels v) ->
+  Forall (Forall finF) image -> finF weight ->
   propagate Full64 image labels mask m n weight = Some (lo, d) ->
   forall v, inr m n v -> labv labels v = 0 ->
     let dv := get2 PrimFloat.zero d (fst v) (snd v) in
-    (forall x l, reachL image mask m n weight labels v x l -> okF dv /\ bitsD dv <= bitsD x) /\
-    (okF dv -> exists x, bitsD x = bitsD dv /\ reachL image mask m n weight labels v x (get2 0 lo (fst v) (snd v))) /\
+    (forall x l k, reachL image mask m n weight labels v x l k -> okF dv /\ bitsD dv <= bitsD x) /\
+    (okF dv -> exists x k, bitsD x = bitsD dv /\ reachL image mask m n weight labels v x (get2 0 lo (fst v) (snd v)) k) /\
     (dv = neg_one \/ okF dv).
 Proof. exact dijkstra_optimal_full64. Qed.
 Print Assumptions C03_dijkstra_optimal_full64.
+
+(* the same for the key AS WRITTEN (Dropped), as far as it is true: on every finite input on which the
+   dropped mantissa bit is 0 for the cost of every mask path of at most m*n steps from a masked seed
+   (e.g. weight 0 on integer-valued images with path sums below 2^52, or costs that are multiples of
+   2^-k with spare mantissa bits) the key reflects the order of all occurring distances and the loop
+   is optimal.  Finding F7 lives exactly outside this class (C03_dijkstra_optimal_refuted: a 1-ulp
+   pair with odd low bit).  Example of the hypotheses: dropped_reflects_example. *)
+Theorem C03_dijkstra_optimal_dropped_when_key_reflects : forall image labels mask m n weight lo d,
+  shape labels m n -> (forall v, inr m n v -> 0 <= labv labels v) ->
+  Forall (Forall finF) image -> finF weight ->
+  (forall v x l k, reachL image mask m n weight labels v x l k -> (k <= Z.to_nat m * Z.to_nat n)%nat ->
+                   bitsD x mod 2 = 0) ->
+  propagate Dropped image labels mask m n weight = Some (lo, d) ->
+  forall v, inr m n v -> labv labels v = 0 ->
+    let dv := get2 PrimFloat.zero d (fst v) (snd v) in
+    (forall x l k, reachL image mask m n weight labels v x l k -> okF dv /\ bitsD dv <= bitsD x) /\
+    (okF dv -> exists x k, bitsD x = bitsD dv /\ reachL image mask m n weight labels v x (get2 0 lo (fst v) (snd v)) k) /\
+    (dv = neg_one \/ okF dv).
+Proof. exact dijkstra_optimal_dropped_when_key_reflects. Qed.
+Print Assumptions C03_dijkstra_optimal_dropped_when_key_reflects.
 
 (* --- optimality of the code as written: refuted by the faithful model (finding F7) ----------- *)
 (* dijkstra_optimal for the key as written: "for every input the Dropped-key model's output passes
